@@ -539,6 +539,12 @@ func (w *World) GWFile() string {
 			fmt.Fprintf(&b, "%s,%s,%s%s", "9Z2", FmtDate(p.Day, w.Cfg.DateFormat), "33", e)
 		}
 	}
+	if w.Alt != 0 {
+		// the second soil profile (soilId=9A1) has a series of its own: the same dates, the table 3 dm deeper
+		for _, p := range w.GWSeries {
+			fmt.Fprintf(&b, "%s,%s,%s%s", "9A1", FmtDate(p.Day, w.Cfg.DateFormat), fnum(p.Level+3), e)
+		}
+	}
 	return b.String()
 }
 
